@@ -29,6 +29,7 @@ type Knobs struct {
 	MaxRoots            int
 	MaxEvents           int
 	PUsesX              float64
+	PSkeleton           float64 // probability of a hand-shaped scenario skeleton instead of a random graph
 }
 
 // Profiles by name.
@@ -38,6 +39,7 @@ func Profile(name string) Knobs {
 	switch name {
 	case "deps": // C01
 		k := base
+		k.PSkeleton = 0.2
 		k.PDep, k.POnce, k.PWC = 0.6, 0.3, 0.15
 		k.PFail, k.MaxFails = 0.12, 2
 		k.PDefer, k.PDeferCall = 0.1, 0.05
@@ -45,6 +47,7 @@ func Profile(name string) Knobs {
 		return k
 	case "seq": // C02
 		k := base
+		k.PSkeleton = 0.2
 		k.MaxEntries, k.PCall = 5, 0.45
 		k.PLoop, k.PMatrix, k.PDepLoop = 0.3, 0.15, 0.1
 		k.PDefer, k.PDeferCall = 0.15, 0.1
@@ -53,6 +56,7 @@ func Profile(name string) Knobs {
 		return k
 	case "fail": // C03
 		k := base
+		k.PSkeleton = 0.2
 		k.PFail, k.MaxFails = 0.25, 3
 		k.PIgnoreCmd, k.PIgnoreTask = 0.3, 0.15
 		k.POnce = 0.3
@@ -60,9 +64,10 @@ func Profile(name string) Knobs {
 		return k
 	case "dedup": // C06
 		k := base
+		k.PSkeleton = 0.2
 		k.POnce, k.PWC = 0.35, 0.35
 		k.PDep, k.PCall = 0.55, 0.4
-		k.PFail, k.MaxFails = 0.08, 1
+		k.PFail, k.MaxFails = 0.15, 2
 		k.Includes = true
 		k.XVariants = true
 		k.PUsesX = 0.5
@@ -86,6 +91,7 @@ func Profile(name string) Knobs {
 		return k
 	case "defer": // C14
 		k := base
+		k.PSkeleton = 0.2
 		k.PDefer, k.PDeferCall, k.PDeferFail = 0.4, 0.2, 0.3
 		k.MaxEntries = 5
 		k.PFail, k.MaxFails = 0.2, 2
@@ -115,6 +121,11 @@ var loopVals = []string{"a", "b", "c", "d"}
 // a larger index, so the graph is acyclic by construction.
 func Generate(rng *rand.Rand, profile string) *Prog {
 	k := Profile(profile)
+	if rng.Float64() < k.PSkeleton {
+		p := skeleton(rng, profile)
+		p.Profile = profile + "/skeleton"
+		return p
+	}
 	for attempt := 0; ; attempt++ {
 		p := generate(rng, k, profile)
 		n := CountEvents(p)
@@ -397,4 +408,92 @@ func CountEvents(p *Prog) int {
 		}
 	}
 	return total
+}
+
+// skeleton builds one of the hand-shaped scenarios that the properties single out and that a
+// random graph produces only rarely: a deduplicated task that is still running, or has already
+// failed, when another referrer arrives, with a failure in exactly one branch. They are small
+// enough for all their release orders to be enumerated.
+func skeleton(rng *rand.Rand, profile string) *Prog {
+	p := &Prog{}
+	id := 0
+	ref := func(t int) *Ref { id++; return &Ref{ID: id, Target: t} }
+	probes := func(n int) []*Entry {
+		var es []*Entry
+		for i := 0; i < n; i++ {
+			es = append(es, &Entry{Kind: Probe})
+		}
+		return es
+	}
+	mode := Once
+	x := ""
+	if rng.Intn(3) == 0 {
+		mode, x = WhenChanged, "one"
+	}
+	code := []int{1, 2, 3, 7, 42, 126, 255}[rng.Intn(7)]
+	mk := func(n int) {
+		for i := 0; i < n; i++ {
+			p.Tasks = append(p.Tasks, &Task{Name: fmt.Sprintf("t%d", i)})
+		}
+	}
+	sref := func(t int) *Ref { r := ref(t); r.X = x; return r }
+	viaCall := rng.Intn(2) == 0
+	switch rng.Intn(4) {
+	case 0: // the shared task is running for branch t2 while a sibling of its first possible starter fails
+		mk(5)
+		p.Tasks[0].Deps = []*Ref{ref(1), ref(2)}
+		p.Tasks[1].Deps = []*Ref{sref(3), ref(4)}
+		if viaCall {
+			p.Tasks[2].Entries = append([]*Entry{{Kind: Call, Ref: sref(3)}}, probes(1)...)
+		} else {
+			p.Tasks[2].Deps = []*Ref{sref(3)}
+			p.Tasks[2].Entries = probes(1)
+		}
+		p.Tasks[3].Run, p.Tasks[3].UsesX = mode, mode == WhenChanged
+		p.Tasks[3].Entries = probes(1 + rng.Intn(2))
+		p.Tasks[4].Entries = append(probes(rng.Intn(2)), &Entry{Kind: Probe, Exit: code})
+		p.Tasks[1].Entries = probes(1)
+	case 1: // the shared task has failed before a late referrer reaches it
+		mk(4)
+		p.Tasks[0].Deps = []*Ref{ref(1), ref(2)}
+		p.Tasks[1].Deps = []*Ref{sref(3)}
+		p.Tasks[1].Entries = probes(1)
+		p.Tasks[2].Entries = append(probes(1+rng.Intn(2)), &Entry{Kind: Call, Ref: sref(3)})
+		p.Tasks[2].Entries = append(p.Tasks[2].Entries, probes(1)...)
+		p.Tasks[3].Run, p.Tasks[3].UsesX = mode, mode == WhenChanged
+		p.Tasks[3].Entries = append(probes(rng.Intn(2)), &Entry{Kind: Probe, Exit: code})
+	case 2: // the waiter's own group is cancelled while the shared task runs for an unaffected branch
+		mk(6)
+		p.Tasks[0].Deps = []*Ref{ref(1), ref(2)}
+		p.Tasks[1].Deps = []*Ref{sref(3)}
+		p.Tasks[1].Entries = probes(1)
+		p.Tasks[2].Deps = []*Ref{ref(5), ref(4)}
+		p.Tasks[2].Entries = probes(1)
+		p.Tasks[3].Run, p.Tasks[3].UsesX = mode, mode == WhenChanged
+		p.Tasks[3].Entries = probes(2)
+		p.Tasks[4].Entries = []*Entry{{Kind: Probe, Exit: code}}
+		p.Tasks[5].Entries = []*Entry{{Kind: DeferCmd}, {Kind: Call, Ref: sref(3)}, {Kind: Probe}}
+	case 3: // several referrers, a shared task with a defer, and a failing command after the shared call
+		mk(5)
+		p.Tasks[0].Deps = []*Ref{ref(1), ref(2), ref(4)}
+		p.Tasks[1].Deps = []*Ref{sref(3)}
+		p.Tasks[1].Entries = []*Entry{{Kind: DeferCmd}, {Kind: Probe}}
+		p.Tasks[2].Entries = []*Entry{{Kind: Call, Ref: sref(3)}, {Kind: Probe, Exit: code}, {Kind: Probe}}
+		p.Tasks[3].Run, p.Tasks[3].UsesX = mode, mode == WhenChanged
+		p.Tasks[3].Entries = []*Entry{{Kind: DeferCmd}, {Kind: Probe}}
+		p.Tasks[4].Deps = []*Ref{sref(3)}
+		p.Tasks[4].Entries = probes(1)
+	}
+	if rng.Intn(3) == 0 {
+		// the two branches as --parallel roots instead of deps of one task
+		for _, d := range p.Tasks[0].Deps {
+			p.Roots = append(p.Roots, d)
+		}
+		p.Parallel = true
+	} else {
+		p.Roots = []*Ref{ref(0)}
+	}
+	p.Conc = []int{0, 0, 1, 2, 3}[rng.Intn(5)]
+	p.Yes = true
+	return p
 }
